@@ -70,12 +70,16 @@ def main(argv):
         units = [u for u in units if fnmatch.fnmatch(u.uid, a.only)]
     ids = [u.uid for u in units]
     assert len(ids) == len(set(ids)), "duplicate unit ids"
-    recs = D.run_units(units, bdir, with_canaries=not a.no_canaries)
     native = []
-    if hasattr(mod, "native") and not a.only:
-        native = mod.native(tier, seed, bdir)
-    elif hasattr(mod, "native") and a.only:
-        native = [n for n in mod.native(tier, seed, bdir, only=a.only)]
+    import concurrent.futures as _cf
+    with _cf.ThreadPoolExecutor(max_workers=1) as _ex:     # native stand-ins run alongside the solver runs
+        nfut = None
+        if hasattr(mod, "native"):
+            nfut = _ex.submit(mod.native, tier, seed, bdir, a.only) if a.only else _ex.submit(mod.native, tier, seed, bdir)
+        recs = D.run_units(units, bdir, with_canaries=not a.no_canaries)
+        if nfut is not None:
+            native = nfut.result()
+    mod.NATIVE_RESULTS = native
 
     known, fixed = load_known(prop)
     errors, violations, known_hits = [], [], []
